@@ -9,6 +9,14 @@ made with *raw* instructions, a trailing marker proves that execution goes on
 behind the construct.  The oracle evaluates the condition trees with exact
 arithmetic on the planted operand values under the statement's width
 precondition and interprets the abstract block structure.
+
+Families: F1 one atom x all its boundary vectors; F2 trees of two and three
+atoms x all truth assignments (F2s: atoms sharing a register); F3 block
+structures (nested, sequenced, else-if chains, bodies that exit); F4 bit
+fields: every comparison operator of a 1..4(5)-bit field at several bit
+positions against every constant 0..2^bits and True/False, on every field value
+with the other bits of the byte all 0 and all 1, alone (with, with/Else,
+inverted) and as an operand of ~ & | trees.
 """
 import contextlib
 import itertools
@@ -28,7 +36,13 @@ RULE = ("programs = block structure (with / with+Else / nested / sequenced / "
         "condition trees over the stated atom alphabet, with operands private "
         "to each atom and with one register shared by all atoms; "
         "each runs on every operand vector of its family (boundary pairs per "
-        "atom, all 2^n truth assignments for trees and nested blocks); a case "
+        "atom, all 2^n truth assignments for trees and nested blocks); "
+        "bit fields (1-bit and multi-bit, several positions) are compared "
+        "with == != < <= > >= against every constant 0..2^bits, True and "
+        "False (field left and right) on every field value x the other bits "
+        "of the byte all 0 / all 1, in with, with/Else, ~ and as either "
+        "operand of two-atom & | trees, judged by the exact integer "
+        "comparison of the field value; a case "
         "(program, vector) is non-trivial when the generator accepted the "
         "program and every compared value fits the narrowest width involved; "
         "distinct = distinct (program, vector)")
@@ -1244,9 +1258,102 @@ def work_shtree(item, res):
         run_prog(stmts, envs, res, kernel and k == 0, "shtree")
 
 
+# ---- family F4: bit fields against small constants, exhaustively
+BF_QUICK = [(0, 1), (3, 1), (7, 1), (0, 2), (6, 2), (2, 3), (4, 4)]
+BF_THOROUGH = [(p, b) for b in (1, 2, 3, 4) for p in range(9 - b)] + [(3, 5)]
+BF_FORMS = 4 + 2 + 1      # single-atom programs per atom (see work_bf)
+
+
+def bf_fields(ctx):
+    return BF_QUICK if ctx.quick else BF_THOROUGH
+
+
+def bf_consts(bits):
+    """every constant a field of that width can equal, the first one it can
+    not reach, and the two booleans"""
+    return list(range((1 << bits) + 1)) + [True, False]
+
+
+def bf_envs(o):
+    """every field value, with the other bits of the byte all 0 and all 1"""
+    pos, bits = o[1], o[2]
+    other = 0xff ^ (((1 << bits) - 1) << pos)
+    return [{o: (f << pos) | sur} for f in range(1 << bits)
+            for sur in uniq([0, other])]
+
+
+def bf_partner(k, o, n):
+    """the second atom of a two-atom tree: operands of its own (k = 0..3) or
+    another comparison of the same field (k = 4, 5)"""
+    if k < 4:
+        return rep_atom(("S", "J", "B", "E")[k], n), False
+    bits = o[2]
+    c = (1 << bits) - 1 if k == 4 else 1
+    return ("cmp", ">=" if k == 4 else "!=", o, ("const", c)), True
+
+
+BF_COMBOS = [(shape, first) for shape in tree_shapes(2)
+             for first in (True, False)]
+
+
+def work_bf(item, res):
+    """family F4: one comparison `field <op> constant` (or `constant <op>
+    field`) on EVERY value of the field x the other bits of its byte all 0 /
+    all 1: alone (with, with/Else of several lengths, inverted, doubly
+    inverted) and as first or second operand of two-atom ~ & | trees (the
+    (shape, position, partner) combinations rotate over the atoms, so that
+    each occurs with every operator and many constants); the reference is the
+    exact integer comparison of the field value"""
+    op, pos, bits, c, left, idx, ncombo, seed, kernel = item
+    o = ("bf", pos, bits, 0)
+    a = ("cmp", op, ("const", c), o) if left else ("cmp", op, o, ("const", c))
+    envs = bf_envs(o)
+    progs = list(with_forms(a, [(3, None), (3, 3), (1, 0), (0, 1)]))
+    progs += list(with_forms(("not", a), [(1, 3), (3, None)]))
+    progs += list(with_forms(("not", ("not", a)), [(3, 1)]))
+    if len(progs) != BF_FORMS:
+        raise core.Internal("BF_FORMS")
+    for k, stmts in enumerate(progs):
+        run_prog(stmts, envs, res, kernel and k == 1, "bf")
+    for j in range(ncombo):
+        shape, first = BF_COMBOS[(idx * 5 + seed + j * 7) % len(BF_COMBOS)]
+        partner, same = bf_partner((idx + j) % 6, o, 1)
+        tree = subst(shape, [a, partner] if first else [partner, a])
+        if same:
+            envs2 = envs
+        else:
+            t, f = pick(partner, seed)
+            envs2 = [{**e, **p} for e in envs for p in (t[0], f[0])]
+        lens = [(3, None), (3, 1)] if (idx + j) % 2 else [(3, 3), (0, 1)]
+        for k, stmts in enumerate(with_forms(tree, lens)):
+            run_prog(stmts, envs2, res, kernel and j == 0 and k == 1, "bf")
+
+
+def bf_items(ctx):
+    items = []
+    idx = pair = 0
+    ke = 11 if ctx.quick else 7
+    for pos, bits in bf_fields(ctx):
+        for c in bf_consts(bits):
+            for op in CMP:
+                pair += 1
+                for left in (False, True):
+                    # `constant <op> field` reaches the generator as the
+                    # mirrored `field <op'> constant` (Python's reflection):
+                    # quick (and the 5-bit field) take every third of them
+                    if left and (ctx.quick or bits > 4) and \
+                            (pair + ctx.seed) % 3:
+                        continue
+                    idx += 1
+                    ncombo = 2 if ctx.quick or bits > 4 else 4
+                    items.append(("bf", op, pos, bits, c, left, idx, ncombo,
+                                  ctx.seed, idx % ke == 0))
+    return items
+
+
 def work(item, res):
     {"atom": work_atom, "tree": work_tree, "block": work_block,
-     "shtree": work_shtree}[item[0]](item[1:], res)
+     "shtree": work_shtree, "bf": work_bf}[item[0]](item[1:], res)
 
 
 def items_for(ctx):
@@ -1351,6 +1458,8 @@ def items_for(ctx):
             n += 1
             items.append(("block", top, pname, (ti + 2 * pi) % 8, ctx.seed,
                           n % ke == 0))
+    # bit fields against every small constant on every field value
+    items += bf_items(ctx)
     return items
 
 
@@ -1364,7 +1473,7 @@ def run(ctx):
     res.cov["kernel_available"] = kern.available()
     res.cov["families"] = {
         k: sum(1 for i in items if i[0] == k) for k in
-        ("atom", "tree", "shtree", "block")}
+        ("atom", "tree", "shtree", "block", "bf")}
     res.sample(dict(stmts=[["if", ["jset", ["loc", "I", 0],
                                    ["const", 0x80000000], "with"],
                             [["m", 1, 3]], [["m", 2, 1]]], ["m", 9, 3]]))
@@ -1378,6 +1487,18 @@ def run(ctx):
         "judged",
         "32-bit register operands are planted zero-extended (the only state "
         "a 32-bit write leaves behind)",
+        "a bit field's value is the unsigned integer held by its bits; "
+        "comparing it with a constant (also one it cannot reach, such as "
+        "2^bits, and with True/False, which are the integers 1 and 0) is the "
+        "integer comparison of that value, whatever the other bits of the "
+        "byte hold; the bit-field family enumerates the fields "
+        + ", ".join(f"({p},{b})" for p, b in BF_QUICK) + " in the quick tier "
+        "and every (pos, bits) with bits <= 4 plus (3,5) in the thorough "
+        "tier; `constant <op> field` is taken for every third (operator, "
+        "constant) pair in the quick tier and for the 5-bit field; of the 32 "
+        "(two-atom tree shape, operand position) combinations each atom gets "
+        "2 (quick) or 4 (thorough), rotating, with a rotating partner atom "
+        "(four with operands of their own, two comparing the same field)",
         "float constants in conditions are exactly representable (3.5, 2.5, "
         "0.5); inexact decimals belong to C02",
         "a body that ends in exit(code) leaves the program: the oracle then "
